@@ -235,7 +235,10 @@ def group_case(draw, tier="quick"):
             xs = [None] * n
         name = draw(st.sampled_from(["v", "w", "amount ($)", "V", "x", "sum", "1st", None, "é"]))
         form = draw(st.sampled_from(["name", "own", "own", "ext"]))
-        vals.append({"kind": kind, "name": name, "form": form, "values": xs})
+        # an external value vector may carry an explicitly declared (non-nullable) dtype although it holds None:
+        # the aggregates are defined over the values, whatever the declaration says
+        declared = form == "ext" and kind in ("int", "float") and None in xs and draw(st.booleans())
+        vals.append({"kind": kind, "name": name, "form": form, "values": xs, "declared": declared})
     funcs = ["sum", "mean", "min", "max", "stdev", "count"]
     aggs = {}
     numeric = [j for j, v in enumerate(vals) if v["kind"] in ("int", "float", "bool", "bigint", "bigfloat")]
@@ -288,7 +291,10 @@ def realise_group(case):
             over.append(cols[kpos[i]][0])
     for j, v in enumerate(case["vals"]):
         if v["form"] == "ext":
-            vspecs.append(S.Vector(list(v["values"]), name=v["name"]))
+            if v.get("declared"):
+                vspecs.append(S.Vector(list(v["values"]), dtype={"int": int, "float": float}[v["kind"]], name=v["name"]))
+            else:
+                vspecs.append(S.Vector(list(v["values"]), name=v["name"]))
         elif v["form"] == "own":
             vspecs.append(t.cols()[vpos[j]])
         else:
